@@ -67,14 +67,14 @@ Section C14.
     - exact (parse_cmd_help_after_dd parse_float getenv c i policy path pre more levels paths filled err Hs Hp).
   Qed.
 
-  (** The whole tree at once: for EVERY application in which no sub-command is itself named "-h" or "--help"
-      ([help_free]) and EVERY argument vector whose first help token is preceded by no "--" ([help_index] finds
-      it), Run lets no Before, no Action and no After run — whichever command the token addresses, whatever
-      stands before and after it, valid or not, whatever the policies are. (What is printed and how Run ends:
-      [C14_help], [C14_help_result].) *)
+  (** The whole tree at once: for EVERY application (after the repair D9 also one with a sub-command named "-h" or
+      "--help") and EVERY argument vector whose first help token is preceded by no "--" ([help_index] finds it), Run
+      lets no Before, no Action and no After run — whichever command the token addresses, whatever stands before and
+      after it, valid or not, whatever the policies are. (What is printed and how Run ends: [C14_help],
+      [C14_help_result].) *)
   Theorem C14_help_runs_nothing_anywhere :
     forall a argv,
-      help_free (a_root a) = true -> help_index argv <> None ->
+      help_index argv <> None ->
       r_trace (run parse_float getenv a argv) = [].
   Proof. exact (run_help_runs_nothing parse_float getenv). Qed.
 End C14.
